@@ -156,8 +156,13 @@ pub(crate) fn create_for_loop_iterator(value: &Value) -> Option<ForLoopIterator>
         }),
 
         ValueInner::Map(map) => {
-            let pairs: Vec<(Key<'static>, Value)> =
+            #[allow(unused_mut)]
+            let mut pairs: Vec<(Key<'static>, Value)> =
                 map.iter().map(|(k, v)| (k.clone(), v.clone())).collect();
+            // Same as when printing a map: without preserve_order the order of a HashMap changes from
+            // one map to the next, so we sort the keys to iterate in a deterministic order
+            #[cfg(not(feature = "preserve_order"))]
+            pairs.sort_by(|a, b| a.0.cmp(&b.0));
             Some(ForLoopIterator::Map {
                 pairs: pairs.into_iter(),
             })
